@@ -6,6 +6,8 @@ use crate::query::Query;
 
 impl Query for Comparable {
     fn process<'a, T: Queryable>(&self, step: State<'a, T>) -> State<'a, T> {
+        #[cfg(jsonpath_rust_verif)]
+        crate::verif::point(7);
         match self {
             Comparable::Literal(lit) => lit.process(step),
             Comparable::Function(tf) => tf.process(step),
@@ -16,6 +18,8 @@ impl Query for Comparable {
 
 impl Query for Literal {
     fn process<'a, T: Queryable>(&self, state: State<'a, T>) -> State<'a, T> {
+        #[cfg(jsonpath_rust_verif)]
+        crate::verif::point(8);
         let val = match self {
             Literal::Int(v) => (*v).into(),
             Literal::Float(v) => (*v).into(),
@@ -30,6 +34,8 @@ impl Query for Literal {
 
 impl Query for SingularQuery {
     fn process<'a, T: Queryable>(&self, step: State<'a, T>) -> State<'a, T> {
+        #[cfg(jsonpath_rust_verif)]
+        crate::verif::point(9);
         match self {
             SingularQuery::Current(segments) => segments.process(step),
             SingularQuery::Root(segments) => segments.process(step.shift_to_root()),
@@ -39,6 +45,8 @@ impl Query for SingularQuery {
 
 impl Query for SingularQuerySegment {
     fn process<'a, T: Queryable>(&self, step: State<'a, T>) -> State<'a, T> {
+        #[cfg(jsonpath_rust_verif)]
+        crate::verif::point(10);
         match self {
             SingularQuerySegment::Index(idx) => step.flat_map(|d| process_index(d, idx)),
             SingularQuerySegment::Name(key) => step.flat_map(|d| process_key(d, key)),
